@@ -157,7 +157,9 @@ class _ExpressionConverter:
             ) = stack.pop()
 
             if isinstance(current_formula, NumericValue):
-                formula_value = Fraction(current_formula.value)
+                # the value is a float: go through its shortest decimal representation
+                # (Fraction(0.4) is 3602879701896397/9007199254740992, not 2/5)
+                formula_value = Fraction(str(current_formula.value))
                 if formula_value.denominator == 1:
                     result_stack.append(em.Int(formula_value.numerator))
                 else:
